@@ -28,6 +28,13 @@ assigned/parsed; pack() == reference encoding of what the attributes read; a sec
 same bytes; no attribute reads differently after pack(); hasattr(p, '__dict__') is False.
 Part 2 runs histories over TWO live packets of one class (operations address packet 0 or 1) against
 two independent models: explicit/enabled state must not leak between instances.
+Part 3 exercises the described packet NESTED: for each variant and inner option set, outer classes
+    Outer{tag = Int(1); inner = Ref(Inner)}  and  OuterSeq{n = Int(1); inners = Ref(Inner).repeated(n)}
+under outer option sets generic and default.  Operations T0/T1/D0/D1/DEL/RD act on an inner packet, PK packs
+the OUTER packet; starts are Outer(), Outer(tag=.., inner=Inner(..)) and Outer.unpack(raw) (then the inner is
+modified).  Oracle: outer.pack() == tag/n byte + reference encoding of each inner from what its attributes
+currently read as; no attribute of an inner reads differently after the outer pack.  The inner packet is never
+packed directly in Part 3 (a direct inner.pack() could refresh state the nested path must refresh itself).
 """
 import itertools
 import os
@@ -46,6 +53,9 @@ REQUIRED = (
     "packs_auto", "packs_auto_after_tracked_change", "reads_after_unpack_before_assignment",
     "deletes_while_explicit", "sets_while_explicit", "dict_checks", "two_packet_histories",
     "classes_generic_code", "classes_generated_code", "described_field_in_vectorised_run",
+    "nested_histories", "nested_packs_compared", "nested_generic_inner_packs", "nested_generated_inner_packs",
+    "nested_generic_inner_in_generated_outer_packs", "nested_packs_after_inner_change", "nested_seq_packs_compared",
+    "nested_packs_after_outer_unpack", "nested_reads_compared",
 )
 RULE = {
     "quick": "4 declarations (AutoLength over Data sized by the described field; the same with the described Int(2) inside "
@@ -54,11 +64,15 @@ RULE = {
              "inconsistent, unpack(raw) x2-3) x EVERY operation sequence of length 1..4 over 7 operations (pure mode, full "
              "observation after the last operation) + every sequence of length 3 with the full observation after every "
              "operation (observed mode); Part 2: every sequence of length 1..3 over 14 operations on two live packets x 3 start "
-             "pairs x 12 classes. Exhaustive for these bounds. A history is non-trivial when start+operations contain at least "
+             "pairs x 12 classes; Part 3 (nested): 12 inner classes x outer option sets {generic, default} x {Ref(Inner): every "
+             "sequence of length 1..3 over 7 operations, Ref(Inner).repeated(n) with two inners: every sequence of length 1..2 "
+             "over 13 operations} x 3 starts (default/ctor, ctor with explicit inner, outer unpack), PK packs the outer packet. "
+             "Exhaustive for these bounds. A history is non-trivial when start+operations contain at least "
              "one assignment/deletion/keyword/unpack affecting the described or tracked field (i.e. not only reads and packs of "
              "a plain C()); distinct = distinct (class, start, mode, operation sequence).",
     "thorough": "as quick with every operation sequence of length 1..6 (pure) and of length 5 (observed), sharded by "
-                "(class, start, mode, first operation); Part 2 with sequences of length 1..4. Exhaustive for these bounds. "
+                "(class, start, mode, first operation); Part 2 with sequences of length 1..4; Part 3 with sequences of length 1..4 for both outer shapes. "
+                "Exhaustive for these bounds. "
                 "Non-trivial as in quick; distinct = distinct (class, start, mode, first<=4 operations (<=3 in Part 2)) groups (the exact number "
                 "of executed histories is in counters histories_pure / histories_observed / two_packet_histories).",
 }
@@ -72,6 +86,8 @@ ASSUMPTIONS = [
     "explicit values fit the integer width; an explicit value inconsistent with the tracked field is serialized as is "
     "(Data(length).pack does not validate its size)",
     "default byte order is big endian; pad/kind of the vectorised variant are plain Int(1) with default 0",
+    "nested part: Ref(Inner) packs the referenced packet in place (outer bytes = Int(1) byte + inner encodings); Outer() holds a "
+    "fresh default Inner; objects passed by keyword are the ones held; n of OuterSeq is a plain Int set by the harness",
 ]
 
 HEADER = ("from bisturi.packet import Packet\n"
@@ -450,17 +466,284 @@ def two_packet_starts(v):
     ]
 
 
+# ---------------------------------------------------------------------------------------------------
+# Part 3: the described packet as a sub-packet
+# ---------------------------------------------------------------------------------------------------
+NHEADER = ("from bisturi.packet import Packet\n"
+           "from bisturi.field import Data, Int, Ref\n"
+           "from bisturi.descriptor import Auto, AutoLength\n\n")
+OUTER_OPTSETS = [OPTSETS[0], OPTSETS[1]]
+INNER_OPS = ("T0", "T1", "D0", "D1", "DEL", "RD")
+NPK = (-1, "PK")
+NESTED_ALPHABET = {
+    "ref": tuple((0, op) for op in INNER_OPS) + (NPK,),
+    "seq": tuple((i, op) for i in (0, 1) for op in INNER_OPS) + (NPK,),
+}
+
+
+class NestedCtx:
+    def __init__(self, ictx, ocls, kind, ooptname, source):
+        self.ictx = ictx
+        self.ocls = ocls
+        self.kind = kind
+        self.ooptname = ooptname
+        self.source = source
+        self.prefix_name = "tag" if kind == "ref" else "n"
+        self.holder = "inner" if kind == "ref" else "inners"
+
+
+def nested_module_source(variant, optname, optsrc):
+    iname = "C17N_%s_%s" % (variant["name"], optname)
+    src = NHEADER + "class %s(Packet):\n    __bisturi__ = %s\n%s" % (iname, optsrc, variant["body"])
+    outers = []
+    for ooptname, ooptsrc in OUTER_OPTSETS:
+        rname = "%s_Ref_%s" % (iname, ooptname)
+        sname = "%s_Seq_%s" % (iname, ooptname)
+        src += "\nclass %s(Packet):\n    __bisturi__ = %s\n    tag = Int(1)\n    inner = Ref(%s)\n" % (rname, ooptsrc, iname)
+        src += "\nclass %s(Packet):\n    __bisturi__ = %s\n    n = Int(1)\n    inners = Ref(%s).repeated(n)\n" % (sname, ooptsrc, iname)
+        outers.append((rname, "ref", ooptname))
+        outers.append((sname, "seq", ooptname))
+    return iname, outers, src
+
+
+def define_nested_classes(run, scratch, count=True):
+    from bisturi.packet import Packet
+    from .. import render
+    out = []
+    for v in VARIANTS:
+        for optname, optsrc in OPTSETS:
+            iname, outers, src = nested_module_source(v, optname, optsrc)
+            module, path = render.load_source(src, scratch)
+            icls = getattr(module, iname)
+            ictx = Ctx(icls, v, optname, src)
+            if (icls.pack_impl is Packet.pack_impl) != (optname == "generic"):
+                run.inconclusive_because("nested inner %s: pack code path does not match option set %r" % (iname, optname))
+            for oname, kind, ooptname in outers:
+                ocls = getattr(module, oname)
+                if (ocls.pack_impl is Packet.pack_impl) != (ooptname == "generic"):
+                    run.inconclusive_because("nested outer %s: pack code path does not match option set %r" % (oname, ooptname))
+                out.append(NestedCtx(ictx, ocls, kind, ooptname, src))
+                if count:
+                    run.cover("nested_classes", "%s inner=%s outer=%s/%s" % (v["name"], optname, kind, ooptname))
+    return out
+
+
+def nested_starts(nctx):
+    """JSON-able starts: {"how": "default"} | {"how": "ctor", "prefix": int, "inners": [kwargs...]}
+    | {"how": "unpack", "raw": bytes, "prefix": int, "inners": [[parsed_tracked, others]...]}."""
+    v = nctx.ictx.v
+    d, t = v["described"], v["tracked"]
+    tv0, tv1 = v["tv"]
+    raws = v["raws"]
+    if nctx.kind == "ref":
+        r = raws[0]
+        return [
+            {"how": "default"},
+            {"how": "ctor", "prefix": 3, "inners": [{d: v["k_incons"], t: tv1}]},
+            {"how": "unpack", "raw": b"\x05" + r[0], "prefix": 5, "inners": [[r[1], r[2]]]},
+        ]
+    ra, rb = raws[0], raws[1]
+    return [
+        {"how": "ctor", "prefix": 2, "inners": [{}, {t: tv0}]},
+        {"how": "ctor", "prefix": 2, "inners": [{d: v["k_incons"], t: tv1}, {}]},
+        {"how": "unpack", "raw": b"\x02" + ra[0] + rb[0], "prefix": 2, "inners": [[ra[1], ra[2]], [rb[1], rb[2]]]},
+    ]
+
+
+def execute_nested(nctx, start, ops, st):
+    """One nested history: inner operations on the inner packet(s), PK / closing observation on the OUTER packet.
+    Returns None or (what, detail)."""
+    ictx = nctx.ictx
+    dname, tname, f = ictx.dname, ictx.tname, ictx.f
+    v = ictx.v
+    how = start["how"]
+    try:
+        if how == "default":
+            outer = nctx.ocls()
+            prefix = 0
+            md = [[False, None, _fresh(v["default"]), {o: 0 for o in ictx.others}, False, None]]
+        elif how == "ctor":
+            inners = [ictx.cls(**{k: _fresh(x) for k, x in kw.items()}) for kw in start["inners"]]
+            prefix = start["prefix"]
+            if nctx.kind == "ref":
+                outer = nctx.ocls(**{nctx.prefix_name: prefix, "inner": inners[0]})
+            else:
+                outer = nctx.ocls(**{nctx.prefix_name: prefix, "inners": inners})
+            md = [[dname in kw, kw.get(dname), _fresh(kw.get(tname, v["default"])), {o: 0 for o in ictx.others}, False, None]
+                  for kw in start["inners"]]
+        else:
+            outer = nctx.ocls.unpack(start["raw"])
+            prefix = start["prefix"]
+            md = [[False, None, _fresh(x[0]), dict(x[1]), False, False] for x in start["inners"]]
+        held = getattr(outer, nctx.holder)
+        pk = [held] if nctx.kind == "ref" else list(held)
+    except Exception as e:
+        return ("nested start raised %s" % type(e).__name__, {"step": -1, "error": "%s: %s" % (type(e).__name__, str(e)[:300])})
+    if len(pk) != len(md) or not all(isinstance(p, ictx.cls) for p in pk):
+        return ("outer packet does not hold the expected inner packets after the start",
+                {"step": -1, "got": [type(p).__name__ for p in pk], "want": len(md)})
+    unpacked = how == "unpack"
+    generic_inner = ictx.optname == "generic"
+
+    def visible(m):
+        return m[1] if m[0] else f(len(m[2]))
+
+    def read_all():
+        out = []
+        for p in pk:
+            out.append((getattr(p, dname), getattr(p, tname), {n: getattr(p, n) for n in ictx.others}))
+        return out
+
+    def outer_pack(step, reads, closing):
+        want = bytes([prefix]) + b"".join(ictx.encode(r, t, o) for r, t, o in reads)
+        for attempt in ((0, 1) if (closing and nctx.kind == "ref") else (0,)):
+            try:
+                b = outer.pack()
+            except Exception as e:
+                return ("outer pack() raised %s" % type(e).__name__,
+                        {"step": step, "error": "%s: %s" % (type(e).__name__, str(e)[:300])})
+            st.add("nested_packs_compared")
+            if nctx.kind == "seq":
+                st.add("nested_seq_packs_compared")
+            if generic_inner:
+                st.add("nested_generic_inner_packs")
+                if nctx.ooptname != "generic":
+                    st.add("nested_generic_inner_in_generated_outer_packs")
+            else:
+                st.add("nested_generated_inner_packs")
+            if any(m[4] for m in md):
+                st.add("nested_packs_after_inner_change")
+                if unpacked:
+                    st.add("nested_packs_after_outer_unpack")
+            if b != want:
+                return ("outer pack() bytes differ from prefix byte + reference encoding of what the inner attributes read"
+                        + (" (second consecutive pack)" if attempt else ""),
+                        {"step": step, "got": b2j(b), "want": b2j(want),
+                         "inner_reads": [{"described": r, "tracked": t, "others": o} for r, t, o in reads],
+                         "models": [{"explicit": m[0], "explicit_value": m[1], "tracked": m[2]} for m in md]})
+        return None
+
+    def check_reads(step):
+        try:
+            reads = read_all()
+        except Exception as e:
+            return None, ("inner attribute read raised %s" % type(e).__name__,
+                          {"step": step, "error": "%s: %s" % (type(e).__name__, str(e)[:300])})
+        for i, (r, t, o) in enumerate(reads):
+            m = md[i]
+            st.add("nested_reads_compared")
+            if t != m[2] or o != m[3]:
+                return None, ("inner tracked/plain field does not read as last assigned or parsed",
+                              {"step": step, "packet": i, "got": {"tracked": t, "others": o}, "want": {"tracked": m[2], "others": m[3]}})
+            want = visible(m)
+            if r != want:
+                return None, ("inner described attribute reads %r but the model (explicit=%s) says %r" % (r, m[0], want),
+                              {"step": step, "packet": i, "got": r, "want": want,
+                               "model": {"explicit": m[0], "explicit_value": m[1], "tracked": m[2]}})
+        return reads, None
+
+    nops = len(ops)
+    for step, (i, op) in enumerate(ops):
+        try:
+            if op == "PK":
+                reads, bad = check_reads(step)
+                if bad is None:
+                    bad = outer_pack(step, reads, False)
+                if bad is not None:
+                    return bad
+            else:
+                p = pk[i]
+                m = md[i]
+                if op == "T0" or op == "T1":
+                    val = ictx.tv[0 if op == "T0" else 1]
+                    setattr(p, tname, _fresh(val))
+                    m[2] = _fresh(val)
+                    m[4] = True
+                elif op == "D0" or op == "D1":
+                    val = ictx.kv[0 if op == "D0" else 1]
+                    setattr(p, dname, val)
+                    m[0], m[1] = True, val
+                    m[4] = True
+                elif op == "DEL":
+                    was = m[0]
+                    try:
+                        delattr(p, dname)
+                    except AttributeError:
+                        if was:
+                            raise
+                        st.add("delete_while_not_assigned_raised_not_judged")
+                    m[0] = False
+                    m[4] = True
+                elif op == "RD":
+                    r = getattr(p, dname)
+                    st.add("nested_reads_compared")
+                    want = visible(m)
+                    if r != want:
+                        return ("inner described attribute reads %r but the model (explicit=%s) says %r" % (r, m[0], want),
+                                {"step": step, "packet": i, "got": r, "want": want,
+                                 "model": {"explicit": m[0], "explicit_value": m[1], "tracked": m[2]}})
+                else:
+                    raise RuntimeError("unknown op %r" % (op,))
+        except RuntimeError:
+            raise
+        except Exception as e:
+            return ("nested operation %s raised %s" % (op, type(e).__name__),
+                    {"step": step, "packet": i, "error": "%s: %s" % (type(e).__name__, str(e)[:300])})
+    # closing observation on the outer packet
+    step = nops - 1
+    reads, bad = check_reads(step)
+    if bad is not None:
+        return bad
+    bad = outer_pack(step, reads, True)
+    if bad is not None:
+        return bad
+    try:
+        reads2 = read_all()
+        held2 = getattr(outer, nctx.holder)
+        prefix2 = getattr(outer, nctx.prefix_name)
+    except Exception as e:
+        return ("attribute read after outer pack() raised %s" % type(e).__name__,
+                {"step": step, "error": "%s: %s" % (type(e).__name__, str(e)[:300])})
+    if reads2 != reads or prefix2 != prefix:
+        return ("outer pack() changed what an attribute reads",
+                {"step": step, "before": [{"described": r, "tracked": t, "others": o} for r, t, o in reads],
+                 "after": [{"described": r, "tracked": t, "others": o} for r, t, o in reads2],
+                 "prefix_before": prefix, "prefix_after": prefix2})
+    now = [held2] if nctx.kind == "ref" else list(held2)
+    if len(now) != len(pk) or any(a is not b for a, b in zip(now, pk)):
+        return ("outer pack() replaced the inner packet objects", {"step": step})
+    st.add("dict_checks")
+    if hasattr(outer, "__dict__") or any(hasattr(p, "__dict__") for p in pk):
+        return ("instance has a __dict__ (nested)", {"step": step})
+    return None
+
+
+def _nested_witness(nctx, start, ops, detail):
+    ictx = nctx.ictx
+    w = {"declaration": nctx.source, "nested": True, "inner_class": ictx.cls.__name__, "outer_class": nctx.ocls.__name__,
+         "outer_kind": nctx.kind, "outer_options": nctx.ooptname, "variant": ictx.v["name"], "options": ictx.optname,
+         "start": start, "ops": [list(o) for o in ops], "mode": "pure",
+         "op_values": {"T0": ictx.tv[0], "T1": ictx.tv[1], "D0": ictx.kv[0], "D1": ictx.kv[1]},
+         "described": ictx.dname, "tracked": ictx.tname,
+         "note": "ops [i, OP] act on inner packet i; [-1, 'PK'] packs the OUTER packet; the closing observation packs the outer"}
+    w.update(detail)
+    return w
+
+
+
 def run(run):
     shard, nshards = run.shard
     quick = run.tier == "quick"
     L = 4 if quick else 6
     LOBS = 3 if quick else 5          # length of the observed-mode histories
     L2 = 3 if quick else 4
+    L3 = {"ref": 3 if quick else 4, "seq": 2 if quick else 4}     # nested part
     budget = 150.0 if quick else 560.0
     t0 = time.time()
     scratch = common.scratch_dir("bvf_c17_")
     try:
         ctxs = define_classes(run, scratch, count=(shard == 0))
+        nctxs = define_nested_classes(run, scratch, count=(shard == 0))
         st = Stats()
         states = set()
 
@@ -476,13 +759,55 @@ def run(run):
                 for fo in range(len(TWO_OPS)):
                     jobs.append((2, ci, si, "pure", fo))
 
+        for ni, nctx in enumerate(nctxs):
+            for si in range(3):
+                for fo in range(len(NESTED_ALPHABET[nctx.kind])):
+                    jobs.append((3, ni, si, "pure", fo))
+
         stop = False
         samples = 0
+        nested_samples = 0
         for ji, (part, ci, si, mode, fo) in enumerate(jobs):
             if nshards > 1 and ji % nshards != shard:
                 continue
             if stop:
                 break
+            if part == 3:
+                nctx = nctxs[ci]
+                start = nested_starts(nctx)[si]
+                alphabet = NESTED_ALPHABET[nctx.kind]
+                first = alphabet[fo]
+                keybase = "3|%s|%d|" % (nctx.ocls.__name__, si)
+                run.cover("nested_starts", "%s/%s: %s" % (nctx.ictx.v["name"], nctx.kind, start))
+                n_exec = 0
+                for length in range(1, L3[nctx.kind] + 1):
+                    for rest in itertools.product(alphabet, repeat=length - 1):
+                        ops = (first,) + rest
+                        nt = start["how"] != "default" or any(op in STATE_CHANGING for _, op in ops)
+                        if nt:
+                            run.case(key=keybase + ",".join("%d%s" % o for o in ops[:3]), nontrivial=True)
+                        else:
+                            run.case(key=None, nontrivial=False)
+                        n_exec += 1
+                        bad = execute_nested(nctx, start, ops, st)
+                        if bad is not None:
+                            run.violation(bad[0], _nested_witness(nctx, start, ops, bad[1]), None)
+                            if run.counters["violations"] > 20:
+                                stop = True
+                                break
+                        elif nested_samples < 2 and nt and n_exec == 40 and (ji // nshards) % 40 == 7:
+                            run.sample({"declaration": nctx.source, "outer_class": nctx.ocls.__name__, "start": start,
+                                        "ops": ops, "mode": "nested", "result": "held"}, cap=8)
+                            nested_samples += 1
+                    if stop:
+                        break
+                    if time.time() - t0 > budget:
+                        run.inconclusive_because("watchdog: enumeration not finished within %.0fs" % budget)
+                        stop = True
+                        break
+                run.count("nested_histories", n_exec)
+                run.count("nested_histories_%s_outer_%s" % (nctx.kind, nctx.ooptname), n_exec)
+                continue
             ctx = ctxs[ci]
             if part == 1:
                 starts = [starts_for(ctx.v)[si]]
@@ -533,6 +858,7 @@ def run(run):
             run.extra["max_history_length"] = L
             run.extra["observed_mode_history_length"] = LOBS
             run.extra["max_two_packet_history_length"] = L2
+            run.extra["max_nested_history_length"] = dict(L3)
             run.extra["operation_alphabet"] = list(OPS)
             if samples == 0 and ctxs:
                 ctx = ctxs[1]
@@ -561,6 +887,20 @@ def replay(run, rec):
     scratch = common.scratch_dir("bvf_c17_replay_")
     try:
         module, path = render.load_source(w["declaration"], scratch)
+        if w.get("nested"):
+            variant = [v for v in VARIANTS if v["name"] == w["variant"]][0]
+            ictx = Ctx(getattr(module, w["inner_class"]), variant, w["options"], w["declaration"])
+            nctx = NestedCtx(ictx, getattr(module, w["outer_class"]), w["outer_kind"], w["outer_options"], w["declaration"])
+            ops = tuple((int(i), str(op)) for i, op in w["ops"])
+            st = Stats()
+            run.case(key="replay", nontrivial=True)
+            bad = execute_nested(nctx, w["start"], ops, st)
+            st.flush(run)
+            print("replay nested %s inner=%s outer=%s/%s start=%r ops=%r -> %s" % (
+                w["variant"], w["options"], w["outer_kind"], w["outer_options"], w["start"], ops, bad[0] if bad else "held"))
+            if bad is not None:
+                run.violation(bad[0], _nested_witness(nctx, w["start"], ops, bad[1]), None)
+            return
         cls = getattr(module, w["class"])
         variant = [v for v in VARIANTS if v["name"] == w["variant"]][0]
         ctx = Ctx(cls, variant, w["options"], w["declaration"])
